@@ -415,3 +415,77 @@ func noVacuousRangeTests(c *core.Ctx, r *core.Rule) {
 		r.OK("defrag/no-vacuous-range-tests", "", fmt.Sprintf("%d comparisons of narrow unsigned values with constants, none vacuous", n))
 	}
 }
+
+// chainErrorUnchanged (R3.8): the error a decoder gets back from
+// p.NextDecoder is the inner decoders' error in eager mode and always nil in
+// lazy mode (where the inner error is recorded later, as it is).  A decoder
+// that wraps or replaces that error makes the recorded failure differ between
+// the two modes: the value may only be returned as it is, or compared with
+// nil.
+func chainErrorUnchanged(c *core.Ctx, r *core.Rule) {
+	p := c.P
+	n, bad := 0, 0
+	for _, fn := range core.SortedFns(p.Roots().DecReach) {
+		if builderParam(fn) == nil || len(fn.Blocks) == 0 || !p.InModule(fn) {
+			continue
+		}
+		k := 0
+		core.Instrs(fn, func(ins ssa.Instruction) {
+			if !isBuilderCall(ins, "NextDecoder") {
+				return
+			}
+			call, ok := ins.(*ssa.Call)
+			if !ok {
+				return
+			}
+			n++
+			var misuse ssa.Instruction
+			seen := map[ssa.Value]bool{}
+			var follow func(v ssa.Value, d int)
+			follow = func(v ssa.Value, d int) {
+				if d > 6 || seen[v] || misuse != nil {
+					return
+				}
+				seen[v] = true
+				refs := v.Referrers()
+				if refs == nil {
+					return
+				}
+				for _, ref := range *refs {
+					switch x := ref.(type) {
+					case *ssa.Return, *ssa.DebugRef, *ssa.If:
+					case *ssa.BinOp:
+						if core.IsNilConst(x.X) || core.IsNilConst(x.Y) {
+							continue
+						}
+						misuse = x
+					case *ssa.Phi:
+						follow(x, d+1)
+					case *ssa.Store:
+						// named result spilled to a local: fine when the address is a local result cell
+						if _, isAl := x.Addr.(*ssa.Alloc); isAl {
+							continue
+						}
+						misuse = x
+					case *ssa.MakeInterface, *ssa.ChangeInterface:
+						follow(x.(ssa.Value), d+1)
+					default:
+						misuse = ref
+					}
+				}
+			}
+			follow(call, 0)
+			if misuse != nil {
+				bad++
+				k++
+				r.Violate(fmt.Sprintf("%s/chain-error-unchanged#%d", core.FnKey(fn), k), p.InstrPos(misuse), "the error returned by NextDecoder is wrapped or otherwise used here instead of being returned unchanged: in eager mode it is the inner decoder's error and ends up, modified, in the packet's error layer; in lazy mode NextDecoder returns nil and the inner error is recorded later as it is — ErrorLayer().Error(), the last layer and the rendered packet differ between the two modes", nil)
+			}
+		})
+	}
+	c.Counts["NextDecoder_results"] = n
+	if n < 30 {
+		r.Missing("decoders/NextDecoder results", fmt.Sprintf("only %d found", n))
+	} else if bad == 0 {
+		r.OK("decoders/chain-error-unchanged", "", fmt.Sprintf("%d NextDecoder results are returned unchanged or only compared with nil", n))
+	}
+}
